@@ -34,6 +34,10 @@ ClausesOf(r) ==
     \cup (IF Only(Col(r, 4), Out(MaxOK(r.x, r.b, TRUE))) THEN {} ELSE {"exclusiveMaximum"})
     \cup (IF Col(r, 6) \subseteq {Out(MaxPairOK(r.x, r.b)), "n/a"} THEN {} ELSE {"maximum_with_exclusiveMaximum"})
     \cup (IF Col(r, 7) \subseteq {Out(MinPairOK(r.x, r.b)), "n/a"} THEN {} ELSE {"minimum_with_exclusiveMinimum"})
+    \* the exclusive bounds inside a NESTED subschema ({"items": {...}} on [x]): the flag / keyword read is the
+    \* subschema's own
+    \cup (IF Only(Col(r, 8), Out(MinOK(r.x, r.b, TRUE))) THEN {} ELSE {"nested_exclusiveMinimum"})
+    \cup (IF Only(Col(r, 9), Out(MaxOK(r.x, r.b, TRUE))) THEN {} ELSE {"nested_exclusiveMaximum"})
     \cup (IF "raise" \in Col(r, 5) THEN {"multipleOf_raises"} ELSE {})
     \cup (IF me = {"undecided"} THEN {"~undecided"}
           ELSE IF me = {"badwitness"} THEN {"~badwitness"}
